@@ -8,6 +8,7 @@ CONSTANTS
   VftTypes = {1}
   FnKinds = {"ret", "vparam", "param"}
   FnOwners = {3}
+  Twins = {"none"}
   TwoModules = FALSE
   Ptrs = {4}
 INVARIANTS Inv_Passes Replay
